@@ -12,8 +12,10 @@ def _target_dir():
 
 
 HBIN = os.path.join(_target_dir(), "release", "verif-harness")
-EVID = os.path.join(VERIF, "evidence")
-REPLAYS = os.path.join(VERIF, "replays")
+# trials against other checkouts (VERIF_REPO) must not overwrite the committed evidence
+_OUT = os.environ.get("VERIF_OUT")
+EVID = os.path.join(_OUT, "evidence") if _OUT else os.path.join(VERIF, "evidence")
+REPLAYS = os.path.join(_OUT, "replays") if _OUT else os.path.join(VERIF, "replays")
 WORK = os.path.join(VERIF, "work")
 COQ_Q = ["-Q", "Script", "Verif", "-Q", "Ms", "Verif", "-Q", "Proofs", "Verif", "-Q", "Properties", "Verif", "-Q", "Tables", "Verif"]
 COQ_W = ["-w", "-notation-overridden,-deprecated-hint-without-locality,-deprecated-instance-without-locality"]
@@ -69,10 +71,24 @@ def build_harness():
             import shutil
             shutil.copy(lock_src, lock_dst)
         tmpl = open(os.path.join(HARNESS, "Cargo.toml.in")).read().replace("@REPO@", REPO)
-        ct = os.path.join(HARNESS, "Cargo.toml")
+        if REPO == "/repo":
+            mdir = HARNESS
+        else:
+            # a separate manifest directory per alternative checkout, so that trials against
+            # scratch worktrees never redirect the default build
+            mdir = os.path.join(WORK, "harness-" + hashlib.sha256(REPO.encode()).hexdigest()[:8])
+            os.makedirs(mdir, exist_ok=True)
+            tmpl += '\n[[bin]]\nname = "verif-harness"\npath = "%s"\n' % os.path.join(HARNESS, "src", "main.rs")
+            import shutil
+            if not os.path.exists(os.path.join(mdir, "Cargo.lock")):
+                shutil.copy(lock_dst, os.path.join(mdir, "Cargo.lock"))
+            cfgd = os.path.join(mdir, ".cargo")
+            os.makedirs(cfgd, exist_ok=True)
+            open(os.path.join(cfgd, "config.toml"), "w").write("[net]\noffline = true\n")
+        ct = os.path.join(mdir, "Cargo.toml")
         if not os.path.exists(ct) or open(ct).read() != tmpl:
             open(ct, "w").write(tmpl)
-        p = sh(["cargo", "build", "--release", "--offline"], cwd=HARNESS, timeout=1800,
+        p = sh(["cargo", "build", "--release", "--offline"], cwd=mdir, timeout=1800,
                env={"RUSTFLAGS": "--cfg miniscript_verif", "CARGO_NET_OFFLINE": "true",
                     "CARGO_TARGET_DIR": _target_dir()})
         if p.returncode != 0:
